@@ -12,7 +12,7 @@ package main
 //   - which processors never close their output;
 //   - do Limit/Range cancel the context they hand upstream; do the kvgraph sources poll ctx.Done;
 //   - is Manager.Cleanup reached on every path through pipeline.Run/Resume;
-//   - does the compiler reject a histogram aggregation with interval 0.
+//   - does the histogram bucket loop stop when the float64 bucket can no longer advance.
 // A shape that is no longer recognisable is an error (table replaced by `extractionFailed`).
 
 import (
@@ -246,7 +246,7 @@ func genBuffersC07(x *Ctx) (string, interface{}, error) {
 	facts := map[string]interface{}{}
 	var b strings.Builder
 	b.WriteString("-- GENERATED by tools/extract (c07_buffers.go) from engine/pipeline/pipes.go, engine/core/processors.go,\n")
-	b.WriteString("-- engine/core/compile.go, kvgraph/graph.go, gdbi/processor.go; do not edit\n")
+	b.WriteString("-- kvgraph/graph.go, gdbi/processor.go; do not edit\n")
 	b.WriteString("namespace GripGen.BuffersC07\n\n")
 
 	// ---- pipeline.Run / Resume ----
@@ -541,40 +541,50 @@ func genBuffersC07(x *Ctx) (string, interface{}, error) {
 	fmt.Fprintf(&b, "def processorCount : Nat := %d\n", len(allProcs))
 	fmt.Fprintf(&b, "def limitCancels : Bool := %s\ndef rangeCancels : Bool := %s\n\n", leanBool(limitCancels), leanBool(rangeCancels))
 
-	// ---- compile.go: histogram interval guard ----
-	comp, err := c07Parse(x, "engine/core/compile.go")
-	if err != nil {
-		return "", nil, err
-	}
-	guard := false
-	ast.Inspect(comp, func(m ast.Node) bool {
-		is, ok := m.(*ast.IfStmt)
-		if !ok {
+	// ---- the histogram bucket loop: `for bucket := …; bucket <= max; bucket += i { … }` ----
+	histLoops, guard := 0, false
+	ast.Inspect(aggFd, func(m ast.Node) bool {
+		fs, ok := m.(*ast.ForStmt)
+		if !ok || fs.Init == nil {
 			return true
 		}
-		mentions := false
-		ast.Inspect(is.Cond, func(k ast.Node) bool {
-			if s, ok := k.(*ast.SelectorExpr); ok && s.Sel.Name == "Interval" {
-				mentions = true
+		as, ok := fs.Init.(*ast.AssignStmt)
+		if !ok || len(as.Lhs) != 1 || !c07Ident(as.Lhs[0], "bucket") {
+			return true
+		}
+		cond, ok := fs.Cond.(*ast.BinaryExpr)
+		post, ok2 := fs.Post.(*ast.AssignStmt)
+		if !ok || !ok2 || cond.Op != token.LEQ || !c07Ident(cond.X, "bucket") || post.Tok != token.ADD_ASSIGN || !c07Ident(post.Lhs[0], "bucket") {
+			histLoops += 100
+			return true
+		}
+		histLoops++
+		// guard: `if bucket+i <= bucket { break }` directly in the loop body
+		for _, st := range fs.Body.List {
+			is, ok := st.(*ast.IfStmt)
+			if !ok {
+				continue
 			}
-			if c, ok := k.(*ast.CallExpr); ok {
-				if s, ok := c.Fun.(*ast.SelectorExpr); ok && s.Sel.Name == "GetInterval" {
-					mentions = true
+			c, ok := is.Cond.(*ast.BinaryExpr)
+			if !ok || (c.Op != token.LEQ && c.Op != token.EQL) || !c07Ident(c.Y, "bucket") {
+				continue
+			}
+			sum, ok := c.X.(*ast.BinaryExpr)
+			if !ok || sum.Op != token.ADD || !c07Ident(sum.X, "bucket") || !c07Ident(sum.Y, "i") {
+				continue
+			}
+			for _, b := range is.Body.List {
+				if br, ok := b.(*ast.BranchStmt); ok && br.Tok == token.BREAK {
+					guard = true
 				}
-			}
-			return true
-		})
-		if !mentions {
-			return true
-		}
-		for _, st := range is.Body.List {
-			if r, ok := st.(*ast.ReturnStmt); ok && len(r.Results) == 2 && c07Ident(r.Results[0], "nil") {
-				guard = true
 			}
 		}
 		return true
 	})
-	fmt.Fprintf(&b, "/-- the compiler returns an error for a histogram aggregation whose interval is 0 -/\ndef histogramIntervalGuard : Bool := %s\n\n", leanBool(guard))
+	if histLoops != 1 {
+		return "", nil, fmt.Errorf("aggregate.Process: histogram loop `for bucket := …; bucket <= max; bucket += i` not recognised (%d)", histLoops)
+	}
+	fmt.Fprintf(&b, "/-- the histogram bucket loop leaves when bucket+i <= bucket (the float64 cannot advance) -/\ndef histogramAdvanceGuard : Bool := %s\n\n", leanBool(guard))
 
 	// ---- kvgraph/graph.go ----
 	kvg, err := c07Parse(x, "kvgraph/graph.go")
@@ -704,6 +714,6 @@ func genBuffersC07(x *Ctx) (string, interface{}, error) {
 	facts["backends"] = bk
 	facts["earlyExit"] = earlyExit
 	facts["notClosingOut"] = noClose
-	facts["histogramIntervalGuard"] = guard
+	facts["histogramAdvanceGuard"] = guard
 	return b.String(), facts, nil
 }
